@@ -232,26 +232,30 @@ CHECKS = {
         technique=PROOF_TECH + "; branch post-condition over a constant table + run-time evaluation of the real validators "
                   "on the recorded blocks with real scrypt"),
     'C19': dict(
-        category='exploration', design_ref='6/C19',
-        text="PROOF (all inputs): DisconnectedRemotePeer.is_time_to_connect returns True only if the number of consecutive "
-             "failures k is at most 2880 and, when there was an earlier attempt, at least min(10 s * 2^k, 30 min) - spelled "
-             "out as 10, 20, 40, ..., 1280, 1800 - have passed since it, and it does return True then (for every k, clock "
-             "and attempt time; the power with a symbolic exponent is exact below 2^64 and bounded from below above). "
-             "Structural scans of the real source (lemma C19.book-writers): the two maps are written only by the five known "
-             "functions; announced / greeted peers are entered into the waiting map only under `key not in "
-             "connected_peers`; the connect handler removes the key from the waiting map right after entering it, the "
-             "disconnect handler removes it from the connected map before entering it; step() starts an outgoing "
-             "connection only for an OUTGOING peer whose address is not this node's own and for which is_time_to_connect "
-             "holds, after recording the attempt time. BOUNDED (exploration): random event sequences on the real "
-             "NetworkManager / LocalPeer / ConnectedRemotePeer with a virtual clock (book disjoint after every event, "
-             "nothing escapes, observed retries respect the schedule and the limit, self-connection dropped and not "
-             "retried), is_time_to_connect on every failure count around every threshold, write_peers with simulated "
-             "crashes (valid JSON, <= 100 entries, most recent first, old-or-new file).",
-        note="The recorded level is the weaker one: the sentence about arbitrary event sequences is carried by the bounded "
-             "run and the scans, not by a proved invariant (the two maps hold mutable peer objects that alias the handlers' "
-             "arguments; the executor's heap shapes are trees, so the map-of-objects invariant is outside its reach). "
-             "Sockets and the selector are inert stand-ins in the bounded process (A-SOCK).",
-        technique=PROOF_TECH + " for the back-off predicate; structural scan obligations; bounded event-sequence exploration"),
+        category='proof', design_ref='6/C19',
+        text="Proved from source. (1) BOOK - no key is in both connected_peers and disconnected_peers - is an invariant of the "
+             "program: NetworkManager.__init__ creates two empty maps; handle_peer_connected, handle_peer_disconnected, "
+             "the greeting handler, the peer-announcement handler (loop invariant over the announced peers) and "
+             "LocalPeer.disconnect each return - and each raise - with BOOK, given BOOK before; a scan shows no other code "
+             "writes the two maps; _sanity_check (loop over the keys) returns exactly when BOOK holds, so from a consistent "
+             "book it never raises: the condition that would stop the network loop is unreachable. (2) The count k of "
+             "consecutive failures: handle_peer_disconnected removes the peer from the connected map and, for an OUTGOING "
+             "peer, files a record with k+1 iff the connection ended without a greeting (k unchanged otherwise), keeping "
+             "host, port and the time of the last attempt; a greeting sets k to 0. (3) is_time_to_connect returns True only "
+             "if k <= 2880 and at least min(10 s * 2^k, 30 min) - spelled out 10, 20, ..., 1280, 1800 - passed since the "
+             "last attempt, and does return True then. (4) A greeting with this node's own nonce on an outgoing connection "
+             "records (host, port) as an own address and drops the connection through LocalPeer.disconnect. Structural scan: "
+             "step() starts an outgoing connection only for an OUTGOING peer whose address is not an own address and for "
+             "which is_time_to_connect holds, after recording the attempt time. Bounded (not proof): event sequences with a "
+             "virtual clock on the real objects, and write_peers (valid JSON, <= 100 entries, most recent first, old-or-new "
+             "file under simulated crashes).",
+        note="Assumed: a LocalPeer and its NetworkManager refer to each other (A-ALIAS: a call self.local_peer.disconnect(...) "
+             "made by the manager changes that very manager's book); the connected map holds peer objects as opaque ids; "
+             "announced addresses are records of the two attributes the handler reads; sockets/selectors are external stubs "
+             "(A-SOCK); iteration over a dict (A-ITER). step() itself (it mutates waiting records in place through the "
+             "map) is only scanned, and the peer file is only exercised.",
+        technique=PROOF_TECH + "; data-structure invariant as pre/post-condition (also exceptional) of all its writers + writer "
+                  "scan; bounded event-sequence companion"),
     'C20': dict(
         category='proof', design_ref='6/C20',
         text="Exceptional post-condition, proved from source: no exception of any class escapes "
